@@ -1377,6 +1377,9 @@ class Parallel(Logger):
     def __exit__(self, exc_type, exc_value, traceback):
         self._managed_backend = False
         if self.return_generator and self._calling:
+            # The unfinished run is aborted: the outputs not yet retrieved
+            # will not be returned, its generator ends.
+            self._exception = True
             self._abort()
         self._terminate_and_reset()
 
